@@ -24,6 +24,16 @@ systematically enumerated input space.
    one event validated by TLC against tla/robust/OutcomeTrace.tla, which rejects
    every forbidden terminal.  Valid seeds and the valid C12 corpus must be
    Accepted.
+4. The driver layer (fifth round): tla/robust/Propagate.tla - the driver runs cc1, as, ld as children and must
+   answer every end of a child other than exit status 0 (exit n, killed by a signal; before or after the child
+   has done its work) with a non-zero status of its own.  The fate family of Edits.tla (child x mode x end x
+   when) is replayed into the REAL driver: harness/c/c13_fate.c stands in for the three children (found through
+   PATH / argv[0], chibicc unmodified), ends as told or delegates to the real tool; each run is one `drv` event
+   validated against PropagateTrace.tla.
+5. Families added in the fifth round besides: what else stands on the diagnosed line (every UTF-8 well- and
+   ill-formedness class inside a comment / string / character constant in front of the offending token of every
+   invalid seed), the operand types of the atomic builtins and operators, a type-qualifier-list in every position
+   the grammar has one.
 Findings are keyed by crash site (top in-tree frame of gdb's backtrace /
 assertion text / internal-error location), not by input.
 """
@@ -131,23 +141,30 @@ def load_seeds():
                 import shlex
                 flags, text = shlex.split(m.group(1)), text[m.end():]
             toks = tokenize(text)
-            seeds.append(dict(name="%s-%s" % (sub[0], os.path.basename(f)[:-2]), valid=sub == "valid", text=text, toks=toks, path=f, flags=flags))
+            seeds.append(dict(name="%s-%s" % (sub[0], os.path.basename(f)[:-2]), valid=sub == "valid", text=text, toks=toks, path=f, flags=flags,
+                              dir="\n" in toks or bool(flags)))          # several lines (directives) / carries options
     if len(seeds) < 50:
         raise Infra("only %d seeds under %s" % (len(seeds), SEEDS))
     return seeds
 
 
 # ------------------------------------------------------------------ inputs
-def gen_edits(ctx, seeds, stride, pairstride, tailstride, pairmax=6):
+def gen_edits(ctx, seeds, stride, pairstride, tailstride, pairmax=6, prefstride=0, atomstride=1, fatestride=1):
     sf = os.path.join(ctx.scratch, "seedlens.ndjson")
-    vt.write_ndjson(sf, [dict(n=len(s["toks"])) for s in seeds])
+    vt.write_ndjson(sf, [dict(n=len(s["toks"]), d=1 if s["dir"] else 0) for s in seeds])
+    nvalid = len([1 for s in seeds if s["valid"]])
+    if any(s["valid"] for s in seeds[nvalid:]):
+        raise Infra("seeds are not ordered valid first")
     out = os.path.join(ctx.scratch, "edits.ndjson")
     if os.path.exists(out):
         os.unlink(out)
     pt = sorted(ALPHABET.index(t) + 1 for t in ("int", "x", "(", ")", "{", "}", ";"))
     cfg = ctx.cfg("robust", "Edits.cfg", NAlpha=len(ALPHABET), PairMax=pairmax, PairTok="{%s}" % ",".join(map(str, pt)),
                   Seed=ctx.seed, Stride=stride, PairStride=pairstride, TailStride=tailstride, NDir=len(DIRS), NEnd=len(ENDS),
-                  NZ=NZ, NZStruct=NZSTRUCT, NCtx=NCTX, NValCtx=NVALCTX)
+                  NZ=NZ, NZStruct=NZSTRUCT, NCtx=NCTX, NValCtx=NVALCTX,
+                  FtExit="{%s}" % ",".join(map(str, FT_EXIT)), FtSignals="{%s}" % ",".join(map(str, sorted(FT_SIGNALS))),
+                  FateStride=fatestride, NValid=nvalid, NCont=len(CONTAINERS), NLead=len(LEADS), NContByte=len(CONTS), PrefStride=prefstride,
+                  NAType=len(ATYPES), NAForm2=NAFORM2, NAForm=NAFORM, AtomStride=atomstride, NQual=len(QUALS), NQPos=len(QPOS))
     g = ctx.tlc("robust", "Edits", cfg, env=dict(SEEDS=sf, OUT=out), workers=4, timeout=1500, heap="6g")
     if not g.ok:
         raise Infra("Edits.tla: %s\n%s" % (g.violated, g.trace_text()[:1500]))
@@ -293,6 +310,189 @@ def zero_name(zs):
     return "zero/%s.%s.%d" % (ZNAMES[zs["z"]], CNAMES[zs["c"]], zs["p"])
 
 
+# the fate family (Edits.tla Fates, Propagate.tla): how a child of the driver ends.  The sets are the spec's constants.
+FT_EXIT = [1, 2, 3, 126, 127, 128, 255]
+FT_SIGNALS = {1: "HUP", 2: "INT", 3: "QUIT", 4: "ILL", 6: "ABRT", 7: "BUS", 8: "FPE", 9: "KILL", 11: "SEGV", 13: "PIPE", 14: "ALRM", 15: "TERM",
+              24: "XCPU", 25: "XFSZ", 31: "SYS"}
+FT_CHILD = {0: "none", 1: "cc1", 2: "as", 3: "ld"}
+FT_MODE = {1: ["-E", "-o", "out.i"], 2: ["-S", "-o", "out.s"], 3: ["-c", "-o", "out.o"], 4: ["-o", "out.exe"]}
+
+
+def fate_name(ft):
+    if ft["how"] == "ok":
+        return "fate/clean@%s" % FT_MODE[ft["md"]][-1][4:]
+    return "fate/%s-%s%s-%s@%s" % (FT_CHILD[ft["ch"]], ft["how"], FT_SIGNALS[ft["n"]] if ft["how"] == "signal" else ft["n"], ft["w"], FT_MODE[ft["md"]][-1][4:])
+
+
+# the prefix family (Edits.tla Prefixed): what else stands on the diagnosed line.  Byte strings = one lead byte + 0..3 continuation bytes.
+LEADS = [0x80, 0xBF, 0xC0, 0xC2, 0xDF, 0xE0, 0xE2, 0xED, 0xEF, 0xF0, 0xF4, 0xF5, 0xFF, 0x7F]
+CONTS = [0x80, 0xA0, 0xBF]
+CONTAINERS = {1: (b"/* ", b"x */ "), 2: (b'char *q__ = "', b'x"; '), 3: (b"int c__ = '", b"'; ")}
+CONTAINER_NAMES = {1: "comment", 2: "string", 3: "char"}
+
+
+def fresh_line_starts(b):
+    """offsets at which a line of the byte string b starts outside a comment / literal and is not the continuation of a spliced line"""
+    out, i, n, st = [], 0, len(b), "code"
+    fresh = True
+    while i < n:
+        if fresh and st == "code":
+            out.append(i)
+        fresh = False
+        while i < n and b[i:i + 1] != b"\n":
+            c = b[i:i + 1]
+            if st == "code":
+                if b[i:i + 2] == b"//":
+                    st = "line"
+                elif b[i:i + 2] == b"/*":
+                    st, i = "block", i + 1
+                elif c in (b'"', b"'"):
+                    st = c
+            elif st == "block":
+                if b[i:i + 2] == b"*/":
+                    st, i = "code", i + 1
+            elif st in (b'"', b"'"):
+                if c == b"\\":
+                    i += 1
+                elif c == st:
+                    st = "code"
+            i += 1
+        i += 1          # the newline
+        spliced = b[max(0, i - 2):i - 1] == b"\\" or b[max(0, i - 3):i - 1] == b"\\\r"
+        if st == "line" and not spliced:
+            st = "code"
+        if st in (b'"', b"'") and not spliced:
+            st = "code"          # an unterminated literal ends with its line
+        fresh = not spliced
+    return out
+
+
+def prefix_bytes(px):
+    seq = bytes([LEADS[px["b"] - 1]] + [CONTS[c - 1] for c in px["cs"]])
+    a, z = CONTAINERS[px["c"]]
+    return a + seq + z
+
+
+def prefixed_text(seed, px):
+    """-> the input as a latin-1 string (byte-exact): the host's rendering with the container in front"""
+    host = render(seed["toks"]).encode("utf-8")
+    pre = prefix_bytes(px)
+    if px["c"] != 1:
+        if seed["dir"]:
+            raise Infra("Edits.tla emitted a one-line container on a host with directives: %s" % seed["name"])
+        return (pre + host).decode("latin-1")
+    out, last = [], 0
+    for o in fresh_line_starts(host):
+        out.append(host[last:o])
+        out.append(pre)
+        last = o
+    out.append(host[last:])
+    return b"".join(out).decode("latin-1")
+
+
+def prefix_name(seed, px):
+    return "prefix/%s.%02x%s~%s" % (CONTAINER_NAMES[px["c"]], LEADS[px["b"] - 1], "".join("%02x" % CONTS[c - 1] for c in px["cs"]), seed["name"])
+
+
+# the atomic-operand family (Edits.tla Atoms): operand types of the atomic builtins and operators
+APRE = ("enum E { EA }; struct S0 {}; struct S1 { char a; }; struct S2 { short a; }; struct S3 { char a[3]; }; struct S4 { int a; }; "
+        "struct S8 { long a; }; struct S16 { long a, b; }; union U4 { int a; float f; }; typedef int *PT; typedef int A4[4]; typedef int F(void); "
+        "struct I; struct B { int a : 3; } b;\n")
+ATYPES = [("bool", "_Bool"), ("char", "char"), ("short", "short"), ("int", "int"), ("long", "long"), ("float", "float"), ("double", "double"),
+          ("ldouble", "long double"), ("pointer", "PT"), ("enum", "enum E"), ("struct0", "struct S0"), ("struct1", "struct S1"), ("struct2", "struct S2"),
+          ("struct3", "struct S3"), ("struct4", "struct S4"), ("struct8", "struct S8"), ("struct16", "struct S16"), ("union4", "union U4"),
+          ("array", "A4"), ("function", "F"), ("void", "void"), ("incomplete", "struct I"), ("bitfield", None)]
+AFORMS = {1: "cas-new", 2: "exch-new", 3: "cas-old", 4: "cas-object-for-address", 5: "exch-object-for-address", 6: "op-assign", 7: "post-inc", 8: "pre-dec",
+          9: "fetch_add", 10: "atomic_exchange", 11: "compare_exchange", 12: "load-store", 13: "atomic_init"}
+NAFORM2, NAFORM = 3, 13
+# standard forms x types that are C11 programs of the supported language (gcc accepts each: `python3 harness/c13.py --atom-oracle gcc`) and must be Accepted
+A_ARITH = {"bool", "char", "short", "int", "long", "enum", "pointer"}
+
+
+def _param(t, name):
+    """(parameter declaration or None, address expression, value expression) of an operand of type no. t"""
+    nm, sp = ATYPES[t - 1]
+    if sp is None:
+        return None, "&b.a", "b.a"
+    if nm == "void":
+        return "void *%s" % name, name, "(void)0"
+    return "%s *%s" % (sp, name), name, "*" + name
+
+
+def atom_text(f, t, u):
+    def fn(ret, params, body):
+        ps = [x for x in params if x]
+        return APRE + "%s f(%s) { %s }\n" % (ret, ", ".join(ps) or "void", body)
+    pt, at_, vt_ = _param(t, "p")
+    po, ao, _ = _param(t, "o")
+    if f == 1:
+        pu, _, vu = _param(u, "v")
+        return fn("int", [pt, po, pu], "return __builtin_compare_and_swap(%s, %s, %s);" % (at_, ao, vu))
+    if f == 2:
+        pu, _, vu = _param(u, "v")
+        return fn("void", [pt, pu], "__builtin_atomic_exchange(%s, %s);" % (at_, vu))
+    if f == 3:
+        pu, au, _ = _param(u, "o")
+        return fn("int", [pt, pu], "return __builtin_compare_and_swap(%s, %s, 1);" % (at_, au))
+    if f == 4:
+        return fn("int", [pt, po], "return __builtin_compare_and_swap(%s, %s, 1);" % (vt_, ao))
+    if f == 5:
+        return fn("void", [pt], "__builtin_atomic_exchange(%s, 1);" % vt_)
+    nm, sp = ATYPES[t - 1]
+    if sp is None:
+        decl, X = "struct { _Atomic int a : 3; } x; int y, z;\n", "x.a"
+    else:
+        decl, X = "_Atomic %s x; %s y, z;\n" % (sp, sp), "x"
+    body = {6: "%s += 1;", 7: "%s++;", 8: "--%s;", 9: "atomic_fetch_add(&%s, 1);", 10: "atomic_exchange(&%s, y);",
+            11: "return atomic_compare_exchange_strong(&%s, &z, y);", 12: "y = atomic_load(&%s); atomic_store(&%s, z);", 13: "atomic_init(&%s, y);"}[f]
+    body = body.replace("%s", X)
+    return ("#include <stdatomic.h>\n" if f >= 9 else "") + APRE + decl + "%s f(void) { %s }\n" % ("int" if f == 11 else "void", body)
+
+
+def atom_must(f, t):
+    """the standard forms on the arithmetic and pointer types of 1, 2, 4, 8 bytes are programs of the supported language"""
+    nm = ATYPES[t - 1][0]
+    if f < 6 or nm not in A_ARITH:
+        return "any"
+    if nm == "bool" and f in (8, 9):          # --b / atomic_fetch_add on an atomic _Bool: not C
+        return "any"
+    if nm == "enum" and f in (9,):
+        return "any"
+    return "accept"
+
+
+def atom_name(at):
+    return "atom/%s.%s%s" % (AFORMS[at["f"]], ATYPES[at["t"] - 1][0], "+" + ATYPES[at["u"] - 1][0] if at["u"] else "")
+
+
+# the qualifier family (Edits.tla Quals): a type-qualifier-list (q) in every position the grammar has one (p)
+QUALS = ["const", "volatile", "restrict", "__restrict", "__restrict__", "_Atomic", "const volatile", "const _Atomic", "volatile restrict"]
+QPOS = ["Q int x;", "int Q x;", "int * Q p;", "int * Q * p;", "struct S { int * Q m; } s;", "int (* Q fp)(void);", "int f(int * Q p);", "int f(int * Q);",
+        "int x; void f(void) { (void)(int * Q)&x; }", "long n = sizeof(int * Q);", "void f(void) { int * Q l = 0; (void)l; }",
+        "int f(int a[Q]);", "int f(int a[Q 3]);", "int f(int a[static Q 3]);", "int f(int a[Q static 3]);", "int f(int a[Q 3]) { return a[0]; }",
+        "typedef int * Q T; T t;", "int * Q f(void);"]
+Q_NONPTR, Q_ARRAY = {1, 2, 6}, {12, 13, 14, 15, 16}          # 6: restrict needs a pointer to an OBJECT type
+
+
+def qual_text(q, p):
+    return QPOS[p - 1].replace("Q", QUALS[q - 1]) + "\n"
+
+
+def qual_must(q, p):
+    """C11 6.7.3: restrict qualifies pointers to object types only; everything else is a program (gcc accepts each: `python3 harness/c13.py
+    --qual-oracle gcc`).  _Atomic inside array brackets is C11 but outside the supported language (diagnosed)."""
+    ql = QUALS[q - 1]
+    if "restrict" in ql and p in Q_NONPTR:
+        return "any"
+    if "_Atomic" in ql and p in Q_ARRAY:
+        return "any"
+    return "accept"
+
+
+def qual_name(qa):
+    return "qual/%s@%d" % (QUALS[qa["q"] - 1].replace(" ", "+"), qa["p"])
+
+
 def text_of(seed, r, tail=None):
     t = render([seed["toks"][j - 1] if j > 0 else ALPHABET[-j - 1] for j in r])
     if not tail or not tail["e"]:
@@ -432,6 +632,7 @@ def run_inputs(ctx, tree, inputs, label, cpu=5, wall=30):
     return inputs
 
 
+TIMEOUT_CAP = 40
 OBS_KEYS = ("status", "sig", "tmo", "internal", "errempty", "hasloc", "fileok", "line", "nlines", "out", "as")
 
 
@@ -502,7 +703,7 @@ def gdb_site(ctx, tree, x, hang=False):
         cmd = ["timeout", "-s", "INT", "3", "gdb", "-batch", "-nx"] + script + ["--args"] + args
     else:
         cmd = ["gdb", "-batch", "-nx", "-ex", "run", "-ex", "bt 40", "--args"] + args
-    p = vt.run_limited(cmd, timeout=90, mem_gb=8, cwd=d)
+    p = vt.run_limited(cmd, timeout=90, mem_gb=8, cwd=d, errors="replace")          # (the front end echoes the input line: any bytes)
     txt = (p.stdout or "") + (p.stderr or "")
     fr = frames_of(txt, tree_files)
     if hang:
@@ -562,7 +763,10 @@ def signature(ctx, tree, x, cls):
         return "no-output", ""
     if cls == "AsRejected":
         return "as-rejects:" + norm_msg(re.sub(r"^.*?Error: ", "", o["aserr"].splitlines()[0] if o["aserr"] else "?")), o["aserr"]
-    return "rejected-valid:%s:%s" % (x.get("cls", "seed"), norm_msg(o["msg"] or o["first"])), o["first"] + " / " + o["msg"]
+    cls_ = x.get("cls", "seed")
+    if cls_ == "seed":          # a seed is named (a listed finding about one seed must not hide the rejection of another)
+        cls_ = "seed/" + str(x.get("name"))
+    return "rejected-valid:%s:%s" % (cls_, norm_msg(o["msg"] or o["first"])), o["first"] + " / " + o["msg"]
 
 
 # --------------------------------------------------------------------- run
@@ -574,6 +778,12 @@ def model_check(ctx, errors):
             r = ctx.tlc("robust", "Outcome", "Outcome_ctl_%s.cfg" % p, workers=1, count=False)
             if r.ok:
                 raise Infra("sensitivity control failed: TLC accepts a front end that may crash under %s" % p)
+        ctx.tlc_expect_ok("robust", "Propagate", "Propagate_mc.cfg", "the driver model answers a child's bad end with exit 0 / the classifier disagrees with it", workers=1)
+        ctx.tlc_expect_ok("robust", "Propagate", "Propagate_ctl.cfg", "the observation classifier disagrees with the (non-robust) driver model", workers=1)
+        for p in ("NoForbidden", "Answer"):
+            r = ctx.tlc("robust", "Propagate", "Propagate_ctl_%s.cfg" % p, workers=1, count=False)
+            if r.ok:
+                raise Infra("sensitivity control failed: TLC accepts a driver that ignores how a child ended under %s" % p)
     except BaseException as e:
         errors.append(e)
 
@@ -632,6 +842,12 @@ def judge(ctx, tree, inputs, label):
     rej = tlc_validate(ctx, inputs, label)
     ctx.phase("%s: validated, %d rejected" % (label, len(rej)))
     ctx.cov["rejected_first_pass"] = ctx.cov.get("rejected_first_pass", 0) + len(rej)
+    # a hang costs the whole time limit, again in the re-run and under gdb: when a change makes hundreds of inputs hang, the first
+    # TIMEOUT_CAP of them are examined (the check fails on the first that repeats); the others are only counted
+    tm = sorted(i for i, c in rej.items() if c == "Timeout")
+    for i in tm[TIMEOUT_CAP:]:
+        del rej[i]
+    ctx.cov["timeouts_beyond_cap_not_examined"] = ctx.cov.get("timeouts_beyond_cap_not_examined", 0) + max(0, len(tm) - TIMEOUT_CAP)
     if rej:
         # a rejection must repeat: run the rejected inputs again (longer wall limit: the machine may be loaded)
         idx = sorted(rej)
@@ -662,6 +878,113 @@ def judge(ctx, tree, inputs, label):
     return rej
 
 
+# ------------------------------------------------- the driver layer (fates)
+FATE_KEYS = ("md", "ch", "how", "n", "w", "status", "sig", "out", "ran")
+
+
+def build_fate(ctx, tree):
+    import shutil
+    if getattr(ctx, "_fate", None):
+        return ctx._fate
+    d = ctx.tmp("fate-bin")
+    r = vt.sh(["cc", "-O1", "-o", d + "/chibicc", os.path.join(vt.VERIF, "harness/c/c13_fate.c")])
+    if r.returncode:
+        raise Infra("c13_fate.c does not build: " + r.stderr[-600:])
+    for n in ("as", "ld"):
+        os.link(d + "/chibicc", d + "/" + n)
+    os.symlink(tree + "/include", d + "/include")          # the front end looks for its headers next to argv[0]
+    real = {n: shutil.which(n) for n in ("as", "ld")}
+    if not all(real.values()):
+        raise Infra("no system as / ld")
+    ctx._fate = (d, real)
+    return d, real
+
+
+def run_fates(ctx, tree, fates, label):
+    """one run of the real driver per fate: -> list of observations (Propagate.tla obs)"""
+    d, real = build_fate(ctx, tree)
+    top = ctx.tmp("fate-" + label)
+
+    def one(t):
+        i, ft = t
+        w = "%s/r%d" % (top, i)
+        os.makedirs(w)
+        open(w + "/main.c", "w").write("int printf(const char *, ...);\nint main(void) { printf(\"%d\\n\", 42); return 0; }\n")
+        env = dict(os.environ, PATH=d + ":" + os.environ.get("PATH", ""), C13_REAL_CC=tree + "/chibicc", C13_REAL_AS=real["as"], C13_REAL_LD=real["ld"],
+                   C13_LOG=w + "/log", TMPDIR=w)
+        env.pop("CHIBICC_VERIF_TRACE", None)
+        env.pop("C13_FATE", None)
+        if ft["how"] != "ok":
+            env["C13_FATE"] = "%s:%s:%d:%s" % (FT_CHILD[ft["ch"]], ft["how"], ft["n"], ft["w"])
+        cmd = [d + "/chibicc"] + FT_MODE[ft["md"]] + ["main.c"]
+        p = vt.run_limited(cmd, timeout=60, mem_gb=4, cwd=w, env=env, errors="replace")
+        if p.returncode == -999:
+            raise Infra("driver run timed out: %s" % fate_name(ft))
+        if "c13_fate:" in (p.stderr or ""):
+            raise Infra("fate helper failed: %s" % p.stderr[-300:])
+        ran = [{"cc1": 1, "as": 2, "ld": 3}[l] for l in (open(w + "/log").read().split() if os.path.exists(w + "/log") else [])]
+        out = os.path.exists(w + "/" + FT_MODE[ft["md"]][-1]) and os.path.getsize(w + "/" + FT_MODE[ft["md"]][-1]) > 0
+        return dict(md=ft["md"], ch=ft["ch"], how=ft["how"], n=ft["n"], w=ft["w"] or "after", status=p.returncode if p.returncode >= 0 else 0,
+                    sig=-p.returncode if p.returncode < 0 else 0, out=out, ran=ran, err=(p.stderr or "")[:300])
+    return vt.pmap(one, list(enumerate(fates)), workers=4)
+
+
+def tlc_validate_fates(ctx, obs, label, count=True):
+    tf = os.path.join(ctx.scratch, "propagate-%s.ndjson" % label)
+    vt.write_ndjson(tf, [dict(e="drv", **{k: o[k] for k in FATE_KEYS}) for o in obs] + [dict(e="eof")])
+    out = tf + ".rej"
+    ctx.tlc("robust", "PropagateTrace", "PropagateTrace.cfg", env=dict(TRACE=tf, OUT=out), workers=1, timeout=600, count=count, heap="2g")
+    rows = vt.read_ndjson(out)
+    if not rows or rows[-1]["events"] != len(obs) + 1:
+        raise Infra("trace validation %s did not reach the end of the log" % label)
+    return {r["at"] - 1: r["c"] for r in rows[-1]["rejected"]}
+
+
+def fate_controls(ctx):
+    """doctored driver observations: PropagateTrace must reject each with its class, and accept the two good ones"""
+    clean = dict(md=3, ch=0, how="ok", n=0, w="after", status=0, sig=0, out=True, ran=[1, 2])
+    bad = dict(md=3, ch=1, how="signal", n=11, w="before", status=1, sig=0, out=False, ran=[1])
+    ins = [("Swallowed", dict(bad, status=0, ran=[1, 2], out=True)), ("Swallowed", dict(bad, how="exit", n=3, status=0)), ("DriverDied", dict(bad, status=0, sig=11)),
+           ("CleanFailed", dict(clean, status=1)), ("NoOutput", dict(clean, out=False)), (None, clean), (None, bad),
+           (None, dict(bad, ch=2, ran=[1], status=0, out=True, md=2))]          # the child with the bad end was never run: a clean run
+    rej = tlc_validate_fates(ctx, [o for _, o in ins], "control", count=False)
+    for i, (c, _) in enumerate(ins):
+        if rej.get(i) != c:
+            raise Infra("sensitivity control failed: doctored driver observation %d (%s) -> %s" % (i, c, rej.get(i)))
+
+
+def judge_fates(ctx, tree, fates, label):
+    if not fates:
+        raise Infra("Edits.tla emitted no member of the fate family")
+    obs = run_fates(ctx, tree, fates, label)
+    rej = tlc_validate_fates(ctx, obs, label)
+    if rej:          # a rejection must repeat
+        idx = sorted(rej)
+        obs2 = run_fates(ctx, tree, [fates[i] for i in idx], label + "-again")
+        rej2 = tlc_validate_fates(ctx, obs2, label + "-again", count=False)
+        for j, i in enumerate(idx):
+            if rej2.get(j) == rej[i]:
+                obs[i] = obs2[j]
+            else:
+                ctx.cov["rejections_not_repeated"] = ctx.cov.get("rejections_not_repeated", 0) + 1
+                del rej[i]
+    ctx.phase("%s: %d driver runs, %d rejected" % (label, len(fates), len(rej)))
+    shown = {}
+    for i in sorted(rej):
+        ft, o = fates[i], obs[i]
+        sig = "propagate:%s:%s:%s" % (rej[i], FT_CHILD[ft["ch"]], ft["how"])
+        shown[sig] = shown.get(sig, 0) + 1
+        if shown[sig] <= 3:
+            ctx.report(sig, "%s: %s: the driver answered status=%d signal=%d output=%s after starting %s; stderr: %s" % (
+                rej[i], fate_name(ft), o["status"], o["sig"], o["out"], [FT_CHILD[c] for c in o["ran"]], o["err"][:120].replace("\n", "\\n")),
+                case=dict(kind="fate", ft=ft, cls=rej[i], obs={k: o[k] for k in FATE_KEYS}))
+        else:
+            ctx.report(sig, "", case=dict(kind="fate"))
+    for ft, o in zip(fates, obs):
+        ctx.note_case("fate|%s|%s|%s|%s|%d" % (ft["md"], ft["ch"], ft["how"], ft["w"], o["status"] != 0), nontrivial=ft["how"] != "ok")
+    return len(fates)
+
+
 def run(ctx):
     q = ctx.quick
     errors = []
@@ -670,13 +993,36 @@ def run(ctx):
     tree = ctx.build()
     seeds = load_seeds()
     rows = gen_edits(ctx, seeds, int(os.environ.get("C13_STRIDE", 24 if q else 1)), int(os.environ.get("C13_PAIRSTRIDE", 100 if q else 4)),
-                     int(os.environ.get("C13_TAILSTRIDE", 8 if q else 1)))
+                     int(os.environ.get("C13_TAILSTRIDE", 8 if q else 1)), prefstride=int(os.environ.get("C13_PREFSTRIDE", 0 if q else 1)),
+                     atomstride=int(os.environ.get("C13_ATOMSTRIDE", 4 if q else 1)), fatestride=int(os.environ.get("C13_FATESTRIDE", 3 if q else 1)))
     ctx.phase("edits enumerated (%d)" % len(rows))
     inputs = []
     for s in seeds:
         inputs.append(dict(name=s["name"], text=render(s["toks"]), must="accept" if s["valid"] else "any", cls="seed", seed=s["name"], ed="id",
                            flags=s["flags"]))
+    fates = []
     for r in rows:
+        if r["s"] == 0 and r["ft"]["md"]:
+            fates.append(r["ft"])
+            continue
+        if r["s"] == 0 and r["qa"]["q"]:
+            qa = r["qa"]
+            inputs.append(dict(name=qual_name(qa), text=qual_text(qa["q"], qa["p"]), must=qual_must(qa["q"], qa["p"]), cls="qual", seed="qual@%d" % qa["p"],
+                               ed="id", flags=[]))
+            continue
+        if r["s"] == 0 and r["at"]["f"]:
+            at = r["at"]
+            nm = atom_name(at)
+            inputs.append(dict(name=nm, text=atom_text(at["f"], at["t"], at["u"]), must=atom_must(at["f"], at["t"]), cls="atom", seed=nm.split(".")[0], ed="id",
+                               flags=["-I" + tree + "/include"]))
+            continue
+        if r["px"]["c"]:
+            s = seeds[r["s"] - 1]
+            if s["valid"] or r["r"] != list(range(1, len(s["toks"]) + 1)):
+                raise Infra("Edits.tla emitted a prefix on a valid or edited host: %s" % r)
+            inputs.append(dict(name=prefix_name(s, r["px"]), text=prefixed_text(s, r["px"]), enc="latin-1", must="any", cls="prefix", seed="prefix~" + s["name"],
+                               ed="id", flags=s["flags"]))
+            continue
         if r["s"] == 0 and r["zs"]["z"]:
             zs = r["zs"]
             if zs["c"] <= NVALCTX and zs["z"] > NZSTRUCT:
@@ -701,14 +1047,29 @@ def run(ctx):
     inputs += [dict(name=n, text=b.decode("latin-1"), enc="latin-1", must="any", cls="lex", seed=n.rsplit("-", 1)[0], ed="id", flags=[])
                for n, b in vt.subsample(c12.lex_files(), ctx.seed, 4 if q else 1)]
     control_events(ctx)
+    fate_controls(ctx)
+    nfl = []
+
+    def fates_thread():          # the driver runs go on next to the front-end runs
+        try:
+            nfl.append(judge_fates(ctx, tree, fates, "fates"))
+        except BaseException as e:
+            errors.append(e)
+    th3 = threading.Thread(target=fates_thread)
+    th3.start()
     rej = judge(ctx, tree, inputs, "main")
+    th3.join()
+    if errors:
+        raise errors[0]
+    nf = nfl[0]
     for i, x in enumerate(inputs):
         o = x["obs"]
         cls = rej.get(i) or ("Accepted" if o["status"] == 0 and not o["sig"] else "Diagnosed")
         ctx.note_case("%s|%s|%s" % (x.get("seed", x.get("name")), cls, norm_msg(o["msg"])), nontrivial=x["cls"] != "seed")
-    ctx.cov["traces_validated_against_impl"] += len(inputs)
+    ctx.cov["traces_validated_against_impl"] += len(inputs) + nf
     ctx.cov["inputs"] = dict(seeds=len(seeds), edits=len(rows), pairs=len([1 for r in rows if len(r["ed"]) == 2]),
-                             zero_sized=len([1 for x in inputs if x["cls"] == "zero"]),
+                             zero_sized=len([1 for x in inputs if x["cls"] == "zero"]), driver_runs_with_child_fates=nf,
+                             prefixed=len([1 for x in inputs if x["cls"] == "prefix"]), atomic_operands=len([1 for x in inputs if x["cls"] == "atom"]),
                              must_accept=len([1 for x in inputs if x["must"] == "accept"]),
                              accepted=len([1 for x in inputs if x["obs"]["status"] == 0 and not x["obs"]["sig"] and not x["obs"]["tmo"]]))
     for x in inputs[len(seeds):: max(1, len(rows) // 5)][:5]:
@@ -722,12 +1083,15 @@ def run(ctx):
         "when the input contains a #line directive the reported line is a presumed line and only its presence is judged (C18 judges presumed positions)",
         "for edited inputs that contain an asm statement the assembler's verdict is not judged (the asm text is the user's)",
         "only the first line of stderr is judged for the location (warnings printed before an error carry a location too)",
-        "the front end is run as `chibicc -cc1` directly; the driver's signal -> exit 1 mapping is exercised by C14",
-        "inputs are token-level edits of the seeds rendered with single spaces; byte-level garbage (NUL bytes, invalid UTF-8, very long lines) is outside the enumerated domain"]
+        "the front end is run as `chibicc -cc1` directly; the driver's mapping of a child's end to its own exit status is checked separately (Propagate.tla, fate family: the real driver with stand-in children); what happens to temporary files is C14's",
+        "prefix family: a diagnostic printed while another one is being printed (HEAD: `invalid UTF-8 sequence` raised by the caret placement) still starts with file:line: and counts as Diagnosed",
+        "inputs are token-level edits of the seeds rendered with single spaces; byte-level garbage is enumerated only in the lexer contexts of the lex family and in front of the diagnosed token (prefix family); NUL bytes and very long lines are outside the enumerated domain"]
     return ctx.finish(
         rule="input = one state of Edits.tla: (seed, single edit Delete/Replace/Insert/Dup/Swap with a token of the 68-token alphabet) or a pair of edits for seeds of <= 6 tokens, "
-             "plus the end-of-file, redeclaration and zero-sized families (type of size 0 x context x position), the seeds themselves and the must-accept corpus (own sources, test/*.c, layout programs); each is run through chibicc -cc1 (+ as) and its observation is one event "
-             "validated by TLC against OutcomeTrace.tla; quick = VERIF_SEED-selected 1/Stride of the closed domain; non-trivial = a real edit or corpus program (not an unedited seed); "
+             "plus the end-of-file, redeclaration, zero-sized (type of size 0 x context x position), prefix (byte string x container x invalid host), atomic-operand (form x type x type) and qualifier (list x position) families, "
+             "the seeds themselves and the must-accept corpus (own sources, test/*.c, layout programs); each is run through chibicc -cc1 (+ as) and its observation is one event "
+             "validated by TLC against OutcomeTrace.tla; the fate family (child x mode x end x when) is one run of the real driver each, validated against PropagateTrace.tla; "
+             "quick = VERIF_SEED-selected 1/Stride of the closed domain; non-trivial = a real edit or corpus program (not an unedited seed); "
              "distinct = distinct (seed, terminal class, normalised diagnostic message)",
         exhaustive=not q)
 
@@ -736,6 +1100,10 @@ def replay(ctx, path):
     c = json.load(open(os.path.join(path, "case.json")))
     c = c.get("case") or c
     tree = ctx.build()
+    if c.get("kind") == "fate":
+        judge_fates(ctx, tree, [c["ft"]], "replay")
+        ctx.cov["traces_validated_against_impl"] += 1
+        return ctx.finish(rule="replay of one recorded case")
     x = dict(name=c.get("name"), must=c.get("must", "any"), cls="replay", flags=c.get("flags") or [])
     name = c.get("name") or ""
     if c.get("enc"):
@@ -777,8 +1145,35 @@ def zero_oracle(cc):
     shutil.rmtree(d, ignore_errors=True)
 
 
+def must_oracle(cc, which):
+    """development-time validation of the must = accept rules of the atomic-operand / qualifier families against a reference
+    compiler: prints every member that the rule calls a program and the compiler rejects (must be none), and counts the
+    members the compiler accepts although the rule leaves them open"""
+    import subprocess, tempfile
+    d = tempfile.mkdtemp(prefix="c13-oracle-")
+    if which == "atom":
+        dom = [(atom_name(dict(f=f, t=t, u=0)), atom_text(f, t, 0), atom_must(f, t)) for f in range(6, NAFORM + 1) for t in range(1, len(ATYPES) + 1)]
+    else:
+        dom = [(qual_name(dict(q=q, p=p)), qual_text(q, p), qual_must(q, p)) for q in range(1, len(QUALS) + 1) for p in range(1, len(QPOS) + 1)]
+    bad = more = 0
+    for nm, t, must in dom:
+        open(d + "/x.c", "w").write(t)
+        r = subprocess.run([cc, "-w", "-std=c11", "-fsyntax-only", d + "/x.c"], capture_output=True, text=True, timeout=60)
+        if must == "accept" and r.returncode:
+            bad += 1
+            print("RULE WRONG", nm, r.stderr.splitlines()[0][:160] if r.stderr else "")
+        elif must != "accept" and not r.returncode:
+            more += 1
+            print("open, accepted by %s: %s" % (cc, nm))
+    print("%d members, %d must-accept members rejected by %s, %d open members accepted by it" % (len(dom), bad, cc, more))
+    import shutil
+    shutil.rmtree(d, ignore_errors=True)
+
+
 if __name__ == "__main__":
     if len(sys.argv) == 3 and sys.argv[1] == "--worker":
         worker_main(sys.argv[2])
+    if len(sys.argv) == 3 and sys.argv[1] in ("--atom-oracle", "--qual-oracle"):
+        must_oracle(sys.argv[2], sys.argv[1][2:6])
     if len(sys.argv) == 3 and sys.argv[1] == "--zero-oracle":
         zero_oracle(sys.argv[2])
